@@ -26,35 +26,167 @@ ASSUMPTIONS = [
     "the accept queue, eviction and the zombie check (C16/QModel.v) are private to Server: their model is tied to the code by the translator (the statements it mirrors) and exercised by the black-box storms with / without evict_on_queue_full and the zombie-check configurations, not by an in-process correspondence; select_nth_unstable's choice among equally old entries is left open (the theorems do not depend on it)",
     "the nesting of the two private maps (cluster -> ip -> count, token -> cluster -> ips) is flattened in the model; their sizes are compared through the cfg(sozu_verif) footprint accessor",
 ]
-TRUSTED = ["poule::Pool hands out a buffer iff used < capacity (modelled, compared on every pool case)", "translator props/c16.py:translate compares the check_limits comparison, the at_capacity threshold 10 + 2*max and the decr re-enable expression with lib/src/server.rs"]
+TRUSTED = ["poule::Pool hands out a buffer iff used < capacity (modelled, compared on every pool case)", "translator props/c16.py:translate reads from lib/src/server.rs (comments and assertions stripped, functions by name, constants resolved, either operand order, one-level private helpers / let bindings followed) the check_limits comparison, the numbers of the accept gate 10 + 2*max / 10 reserved, the decr re-enable expression and the saturating untrack; a construct it cannot recognise is reported as `unreadable:` and the tie for that run is the correspondence check on the larger search batch (TRANSLATE_FALLBACK); the accept-queue / eviction / zombie statements mirrored by QModel.v are matched with free local names and stay hard"]
+
+
+# The translator reads FACTS (numbers, operators), not spelling: comments and assertions are stripped, functions are
+# found by name, locals / private names are `\w+`, named constants are looked up, `a < b` = `b > a`, and a
+# sub-expression may sit in a one-level private helper.  Recognised with another value: hard failure; not
+# recognised: `unreadable: ...` (soft, see TRANSLATE_FALLBACK) for the facts the correspondence run observes.
+
+import rustmini
+
+
+def _ws(s):
+    return re.sub(r"\s+", " ", s).strip()
+
+
+def _no_asserts(text):
+    """drop assert!/debug_assert*!( ... ) invocations (their comparisons are not the code's decisions)"""
+    out, i = [], 0
+    for m in re.finditer(r"\b(?:debug_)?assert(?:_eq|_ne)?!\s*\(", text):
+        if m.start() < i:
+            continue
+        out.append(text[i:m.start()])
+        try:
+            i = rustmini.match_brace(text, m.end() - 1, "(", ")") + 1
+        except rustmini.Unrecognised:
+            i = m.end()
+    out.append(text[i:])
+    return "".join(out)
+
+
+def _body(src, name):
+    try:
+        return _no_asserts(rustmini.fn_body(src, name)[0])
+    except rustmini.Unrecognised:
+        return None
+
+
+def _consts(src):
+    return {m.group(1): _ws(m.group(2)) for m in re.finditer(r"\bconst\s+(\w+)\s*:\s*[\w:<>]+\s*=\s*([^;]+);", src)}
+
+
+def _resolve(text, consts):
+    """named integer constants replaced by their values, integer suffixes / separators dropped"""
+    for _ in range(3):
+        text = re.sub(r"\b(?:Self::)?([A-Z][A-Z0-9_]+)\b", lambda m: consts[m.group(1)] if re.fullmatch(r"\d[\d_]*\w*", consts.get(m.group(1), "")) else m.group(0), text)
+    return re.sub(r"\b(\d[\d_]*?)_?(?:usize|u64|u32|i32|i64)\b", r"\1", text).replace("_", "_")
+
+
+_FLIP = {"<": ">", "<=": ">=", ">": "<", ">=": "<="}
+
+
+def _cmp(text, A, B):
+    op = r"(<=|>=|<|>)"
+    m = re.search(r"(?:%s)\s*%s\s*(?:%s)" % (A, op, B), text)
+    if m:
+        return m.group(1), m.start()
+    m = re.search(r"(?:%s)\s*%s\s*(?:%s)" % (B, op, A), text)
+    if m:
+        return _FLIP[m.group(1)], m.start()
+    return None, -1
+
+
+def _inline_helper(src, expr):
+    """`self.helper()` / `Self::helper(self)` replaced by the (single-expression) body of the private helper"""
+    def sub(m):
+        hb = _body(src, m.group(1))
+        return "(" + _ws(hb) + ")" if hb is not None and ";" not in hb and "{" not in hb else m.group(0)
+    return re.sub(r"\bself\.(\w+)\(\)", sub, expr)
+
+
+def _inline_lets(body):
+    """`let x = <one-line expression>;` substituted into the rest of the body"""
+    for m in list(re.finditer(r"\blet\s+(\w+)(?:\s*:\s*\w+)?\s*=\s*([^;{}]+);", body)):
+        name, expr = m.group(1), _ws(m.group(2))
+        head, tail = body[:m.end()], body[m.end():]
+        body = head + re.sub(r"(?<![\w.])%s\b(?!\s*\()" % re.escape(name), "(" + expr + ")", tail)
+    return body
+
+
+def _translate():
+    fails = []
+    try:
+        sv = rustmini.strip(open(os.path.join(vlib.REPO, "lib/src/server.rs")).read())
+    except (OSError, rustmini.Unrecognised) as ex:
+        return ["unreadable: server.rs: %s" % ex]
+    consts = _consts(sv)
+    mc = r"self\.max_connections"
+    # 1. check_limits refuses at nb_connections >= max_connections
+    b = _body(sv, "check_limits")
+    op, _ = _cmp(b, r"self\.nb_connections", mc) if b else (None, -1)
+    if op is None:
+        fails.append("unreadable: server.rs: check_limits: the test `nb_connections >= max_connections` not found (model: take_in refuses at the cap)")
+    elif op != ">=":
+        fails.append("server.rs: check_limits refuses when nb_connections %s max_connections (model: >=)" % op)
+    # 2. the accept gate: 10 + 2 * max_connections
+    b = _body(sv, "accept_slab_threshold")
+    r = _resolve(_inline_helper(sv, b), consts) if b else ""
+    m = (re.search(r"\b(?P<a>\d+)\s*\+\s*(?P<b>\d+)\s*\*\s*%s" % mc, r) or re.search(r"\b(?P<a>\d+)\s*\+\s*%s\s*\*\s*(?P<b>\d+)" % mc, r)
+         or re.search(r"%s\s*\*\s*(?P<b>\d+)\s*\+\s*(?P<a>\d+)" % mc, r) or re.search(r"\b(?P<b>\d+)\s*\*\s*%s\s*\+\s*(?P<a>\d+)" % mc, r))
+    if not m:
+        fails.append("unreadable: server.rs: accept_slab_threshold: `10 + 2 * max_connections` not found (model: gate)")
+    elif (int(m.group("a")), int(m.group("b"))) != (10, 2):
+        fails.append("server.rs: accept_slab_threshold is %s + %s * max_connections (model: 10 + 2 * max_connections)" % (m.group("a"), m.group("b")))
+    # 3. at_capacity: slab.len() >= threshold + not_sessions.saturating_sub(10)
+    b = _body(sv, "at_capacity")
+    r = _resolve(b, consts) if b else ""
+    m = re.search(r"self\.slab\.len\(\)\s*(<=|>=|<|>)\s*(\w+)\s*\+\s*(\w+)\s*\.\s*saturating_sub\(\s*(\d+)\s*\)", r) \
+        or re.search(r"self\.slab\.len\(\)\s*(<=|>=|<|>)\s*(\w+)\s*\.\s*saturating_sub\(\s*(\d+)\s*\)\s*\+\s*(\w+)", r)
+    if not m or "accept_slab_threshold" not in r:
+        fails.append("unreadable: server.rs: at_capacity: `slab.len() >= accept_slab_threshold() + not_sessions.saturating_sub(10)` not found (model: gate_closed)")
+    else:
+        n = [g for g in m.groups()[1:] if g.isdigit()]
+        if m.group(1) != ">=" or n != ["10"]:
+            fails.append("server.rs: at_capacity is slab.len() %s threshold + not_sessions.saturating_sub(%s) (model: >=, 10 reserved entries)" % (m.group(1), ",".join(n)))
+    # 4. decr re-opens the gate below (max_connections * 90 / 100).max(1)
+    b = _body(sv, "decr")
+    r = _resolve(_inline_helper(sv, _inline_lets(b)), consts) if b else ""
+    r = re.sub(r"\(\s*\(([^()]*(?:\([^()]*\)[^()]*)*)\)\s*\)", r"(\1)", r)
+    m = re.search(r"!\s*self\.can_accept\s*&&\s*self\.nb_connections\s*(<=|<)\s*\(?\s*\(\s*%s\s*\*\s*(\d+)\s*/\s*(\d+)\s*\)\s*\.\s*max\(\s*(\d+)\s*\)" % mc, r)
+    if not m:
+        fails.append("unreadable: server.rs: decr: `!can_accept && nb_connections < (max_connections * 90 / 100).max(1)` not found (model: resume_threshold)")
+    elif (m.group(1), m.group(2), m.group(3), m.group(4)) != ("<", "90", "100", "1"):
+        fails.append("server.rs: decr re-enables can_accept at nb_connections %s (max_connections*%s/%s).max(%s) (model: < (max_connections*90/100).max(1))" % m.groups())
+    # 5. untrack: saturating decrement, the entry is reaped at zero
+    b = _body(sv, "untrack_all_cluster_ip")
+    m = b and re.search(r"\*\s*(\w+)\s*=\s*\1\s*\.\s*saturating_sub\(\s*(\w+)\s*\)\s*;\s*if\s+\*\s*\1\s*==\s*0\s*\{\s*\w+\.remove\(\)\s*;", _resolve(b, consts))
+    if not m:
+        fails.append("unreadable: server.rs: untrack_all_cluster_ip: `*count = count.saturating_sub(1); if *count == 0 { inner.remove(); }` not found")
+    elif m.group(2) != "1":
+        fails.append("server.rs: untrack_all_cluster_ip decrements by %s (model: 1)" % m.group(2))
+    # the statements C16/QModel.v mirrors (accept queue, eviction, zombie check are private to Server: exercised by
+    # the black-box stage, not observed op by op, so these stay hard; spelled with free local names)
+    flat = _resolve(_no_asserts(sv), consts)
+    for pat, what in [
+        (r"self\.accept_queue\s*\.\s*push_back\(", "Server::accept no longer push_back()s the accepted socket"),
+        (r"=\s*self\.accept_queue\s*\.\s*pop_back\(\)", "create_sessions no longer pops the queue from the back"),
+        (r"if\s+(?:\w+\s*>\s*self\.accept_queue_timeout|self\.accept_queue_timeout\s*<\s*\w+)\s*\{[^{}]*continue\s*;", "create_sessions no longer drops a connection that waited longer than accept_queue_timeout"),
+        (r"if\s+!\s*self\.evict_on_queue_full\s*\{\s*break\s*;", "create_sessions no longer stops at the cap when evict_on_queue_full is off"),
+        (r"\(\s*self\.sessions\.borrow\(\)\.max_connections\s*/\s*100\s*\)\s*\.\s*max\(\s*1\s*\)", "create_sessions no longer evicts max(1, max_connections/100) sessions"),
+        (r"\.\s*select_nth_unstable_by_key\(\s*\w+\s*,\s*\|\s*&\(\s*_\s*,\s*(\w+)\s*\)\s*\|\s*\1\s*\)", "evict_least_active_sessions no longer selects by last_event"),
+        (r"\w+\s*-\s*\w+\.borrow\(\)\.last_event\(\)\s*>\s*self\.zombie_check_interval|self\.zombie_check_interval\s*<\s*\w+\s*-\s*\w+\.borrow\(\)\.last_event\(\)", "zombie_check no longer reclaims the sessions idle for longer than the interval"),
+    ]:
+        if not re.search(pat, flat):
+            fails.append("server.rs: " + what + " (model: C16/QModel.v)")
+    return fails
 
 
 def translate():
-    fails = []
-    sv = open(os.path.join(vlib.REPO, "lib/src/server.rs")).read()
-    if not re.search(r"if self\.nb_connections >= self\.max_connections \{", sv):
-        fails.append("server.rs: check_limits no longer refuses at nb_connections >= max_connections")
-    if not re.search(r"let threshold = 10 \+ 2 \* self\.max_connections;", sv):
-        fails.append("server.rs: accept_slab_threshold is no longer 10 + 2 * max_connections")
-    if not re.search(r"self\.slab\.len\(\) >= threshold \+ not_sessions\.saturating_sub\(10\)", sv):
-        fails.append("server.rs: at_capacity is no longer slab.len() >= threshold + not_sessions.saturating_sub(10)")
-    if not re.search(r"if !self\.can_accept && self\.nb_connections < \(self\.max_connections \* 90 / 100\)\.max\(1\) \{", sv):
-        fails.append("server.rs: decr no longer re-enables can_accept at nb_connections < (max_connections*90/100).max(1) (model: resume_threshold)")
-    if not re.search(r"\*count = count\.saturating_sub\(1\);\s*if \*count == 0 \{\s*inner\.remove\(\);", sv):
-        fails.append("server.rs: untrack_all_cluster_ip no longer decrements saturating and reaps at zero")
-    # the statements C16/QModel.v mirrors (accept queue, eviction, zombie check are private to Server)
-    for pat, what in [
-        (r"self\.accept_queue\.push_back\(\(", "Server::accept no longer push_back()s the accepted socket"),
-        (r"while let Some\(\(sock, token, protocol, timestamp, _peer\)\) = self\.accept_queue\.pop_back\(\)", "create_sessions no longer pops the queue from the back"),
-        (r"if wait_time > self\.accept_queue_timeout \{\s*incr!\(names::accept_queue::TIMEOUT\);\s*continue;", "create_sessions no longer drops a connection that waited longer than accept_queue_timeout"),
-        (r"if !self\.evict_on_queue_full \{\s*break;", "create_sessions no longer stops at the cap when evict_on_queue_full is off"),
-        (r"let to_evict = \(self\.sessions\.borrow\(\)\.max_connections / 100\)\.max\(1\);", "create_sessions no longer evicts max(1, max_connections/100) sessions"),
-        (r"candidates\.select_nth_unstable_by_key\(pivot, \|&\(_, last_event\)\| last_event\);", "evict_least_active_sessions no longer selects by last_event"),
-        (r"\.filter\(\|\(_, c\)\| now - c\.borrow\(\)\.last_event\(\) > self\.zombie_check_interval\)", "zombie_check no longer reclaims the sessions idle for longer than the interval"),
-    ]:
-        if not re.search(pat, sv):
-            fails.append("server.rs: " + what + " (model: C16/QModel.v)")
-    return fails
+    try:
+        return _translate()
+    except (rustmini.Unrecognised, re.error, IndexError, AttributeError, TypeError) as ex:
+        return ["unreadable: server.rs: the translator could not read the file (%s: %s)" % (type(ex).__name__, ex)]
+
+
+TRANSLATE_FALLBACK = ("the facts marked soft (refusal at nb_connections >= max_connections, the accept gate 10 + 2 * max_connections with "
+                      "10 reserved entries, the re-opening threshold (max_connections*90/100).max(1), the saturating per-(cluster,ip) "
+                      "decrement reaped at zero) determine what the driver prints after every accept / close / track / check of the real "
+                      "SessionManager (granted or refused, can_accept, nb_connections, slab fill, per-ip counts), on histories whose slab "
+                      "fill is drawn at 9/10/11 + 2*max_connections, with max_connections from 0 to 10 (90% of 10 = 9; the .max(1) "
+                      "clamp at 1) and per-ip limits 0..3; the accept-queue / eviction / zombie-check statements are not observed that "
+                      "way and stay hard")
 
 
 def history(rng, cid):
